@@ -12,6 +12,7 @@ import z3
 
 from symtm import core, tensor as T, harness, env
 from symtm.core import SInt, ite, s_and, s_or, s_not, s_sum
+from symtm.loader import SymStr
 from . import common as C
 from .C03 import UFModel, expected_row
 from .C01 import spec_substitute, sel
@@ -56,6 +57,14 @@ def _ohe_row(chars, A):
 
 # ------------------------------------------------------------------ replay on the real build
 
+def _alphabet(cfg, A):
+    """the alphabet of a configuration: the first A letters, or - for string motifs - a non-default ordering of them"""
+    al = list(C.ALPHA[:A])
+    if cfg.get("alphabet_perm"):
+        al = [al[i] for i in cfg["alphabet_perm"]]
+    return al
+
+
 def _real_model(kind, n_out, feat, n_args):
     import torch
     g = torch.Generator().manual_seed(11)
@@ -86,7 +95,7 @@ def replay(r):
     from tangermeme.predict import predict
     k, A, x, kind, n_out, n_args = r["kind"], r["A"], r["x"], r["out"], r["n_out"], r["n_args"]
     B, L = len(x), len(x[0])
-    X = C.real_onehot(x, A).type(torch.float64)
+    X = C.real_onehot(x, A).type(getattr(torch, r.get("x_dtype", "float64")))
     g = torch.Generator().manual_seed(5)
     args = [torch.randn(B, 1, generator=g, dtype=torch.float64) for _ in range(n_args)]
     m = _real_model(kind, n_out, A * L, n_args)
@@ -94,7 +103,8 @@ def replay(r):
     kw = dict(device="cpu", batch_size=bs)
     if n_args:
         kw["args"] = tuple(args)
-    alphabet = list(C.ALPHA[:A])
+    alphabet = _alphabet(r, A)
+    mk_motif = (lambda mm: "".join(alphabet[c] for c in mm[0])) if r.get("motif_str") else (lambda mm: C.real_onehot(mm, A).type(torch.float64))
 
     def outs(y):
         return [y] if kind == "tensor" else list(y)
@@ -119,9 +129,9 @@ def replay(r):
 
     try:
         if k == "marginalize":
-            mot = C.real_onehot(r["motif"], A).type(torch.float64)
+            mot = mk_motif(r["motif"])
             yb, ya = mg.marginalize(m, X, mot, start=r["start"], alphabet=alphabet, **kw)
-            Xs = ersatz.substitute(X, mot, start=r["start"])
+            Xs = ersatz.substitute(X, mot, start=r["start"], alphabet=alphabet)
             bad = cmp(yb, (B,), lambda i: (X[i[0]:i[0] + 1], [a[i[0]:i[0] + 1] for a in args]), "before") or \
                 cmp(ya, (B,), lambda i: (Xs[i[0]:i[0] + 1], [a[i[0]:i[0] + 1] for a in args]), "after")
         elif k == "marginalize_annotations":
@@ -173,13 +183,13 @@ def replay(r):
                 return Xp[0, i[2]][None], []
             bad = cmp(yb, (na, 1), lambda i: (X[r["annotations"][i[0]][0]][None], []), "before") or cmp(ya, (na, 1, n), after, "after")
         elif k == "space":
-            mots = [C.real_onehot(mm, A).type(torch.float64) for mm in r["motifs"]]
+            mots = [mk_motif(mm) for mm in r["motifs"]]
             spc = r["spacing"]
             yb, ya = sp.space(m, X, mots, spc, start=r["start"], alphabet=alphabet, **kw)
             S = len(spc)
 
             def after(i):
-                Xs = ersatz.multisubstitute(X, mots, list(spc[i[1]]), start=r["start"])
+                Xs = ersatz.multisubstitute(X, mots, list(spc[i[1]]), start=r["start"], alphabet=alphabet)
                 return Xs[i[0]:i[0] + 1], [a[i[0]:i[0] + 1] for a in args]
             bad = cmp(yb, (B, S), lambda i: (X[i[0]:i[0] + 1], [a[i[0]:i[0] + 1] for a in args]), "before") or cmp(ya, (B, S), after, "after")
         elif k in ("apply_pairwise", "apply_product"):
@@ -213,12 +223,25 @@ def worker(cfg):
     stats = core.Stats()
     out = {"violations": [], "samples": []}
     k, A, B, L, kind, n_out, n_args = cfg["kind"], cfg["A"], cfg["B"], cfg["L"], cfg["out"], cfg["n_out"], cfg["n_args"]
-    alphabet = list(C.ALPHA[:A])
+    alphabet = _alphabet(cfg, A)
     mods = {n: ld.load(n) for n in ("marginalize", "ablate", "space", "product", "predict")}
+
+    def motif(ctx, name, w):
+        """a motif as a one-hot tensor or (motif_str) as a string over the configuration's alphabet; returns (motif, codes)"""
+        mc = C.sym_chars(ctx, name, (1, w), A)
+        if cfg.get("motif_str"):
+            codes = []
+            for t in range(w):
+                r_ = ord(alphabet[-1])
+                for k_ in range(A - 1):
+                    r_ = ite(mc[0, t] == k_, ord(alphabet[k_]), r_)
+                codes.append(r_)
+            return SymStr(codes), mc
+        return C.onehot_from_chars(mc, A, dtype="float32"), mc
 
     def body(ctx):
         xc = C.sym_chars(ctx, "x", (B, L), A)
-        X = C.onehot_from_chars(xc, A, dtype="float32")
+        X = C.onehot_from_chars(xc, A, dtype=cfg.get("x_dtype", "float32"))
         args = [T.Tensor(np.array([[core.Real("a%d_%d" % (q, i))] for i in range(B)], dtype=object), dtype="float32") for q in range(n_args)]
         bs = core.Int("batch_size")
         ctx.assume(bs.z >= 1)
@@ -248,8 +271,7 @@ def worker(cfg):
         try:
             if k == "marginalize":
                 w = cfg["w"]
-                mc = C.sym_chars(ctx, "m", (1, w), A)
-                mo = C.onehot_from_chars(mc, A, dtype="float32")
+                mo, mc = motif(ctx, "m", w)
                 start = core.Int("start")
                 ctx.assume(s_and(start >= 0, start + w <= L))
                 base["motif"] = lambda m: C.eval_chars(m, mc)
@@ -353,8 +375,8 @@ def worker(cfg):
                     key = "annotations:multi-output-stacking" if kind != "tensor" else "ablate_annotations:wrong-index"
             elif k == "space":
                 ws, S = cfg["ws"], cfg["S"]
-                mcs = [C.sym_chars(ctx, "m%d" % q, (1, w), A) for q, w in enumerate(ws)]
-                mos = [C.onehot_from_chars(mc, A, dtype="float32") for mc in mcs]
+                mms = [motif(ctx, "m%d" % q, w) for q, w in enumerate(ws)]
+                mos, mcs = [mm[0] for mm in mms], [mm[1] for mm in mms]
                 spv = [[core.Int("sp%d_%d" % (s_, q)) for q in range(len(ws) - 1)] for s_ in range(S)]
                 start = core.Int("start")
                 ctx.assume(start >= 0)
@@ -440,6 +462,12 @@ def configs(tier):
         cf.append(dict(kind="apply_pairwise", A=2, B=2, L=2, arg_sizes=[3, 3], out=kind, n_out=n_out, n_args=0))
         cf.append(dict(kind="apply_product", A=2, B=2, L=2, arg_sizes=[3, 2], out=kind, n_out=n_out, n_args=0))
         cf.append(dict(kind="apply_product", A=2, B=1, L=2, arg_sizes=[2], out=kind, n_out=n_out, n_args=0))
+    # string motifs over an alphabet that is not the default ordering (the alphabet must reach every encoder)
+    cf.append(dict(kind="space", A=4, B=1, L=3, ws=[1, 1], S=1, out="tensor", n_out=1, n_args=0, motif_str=True, alphabet_perm=[3, 2, 1, 0]))
+    cf.append(dict(kind="marginalize", A=4, B=1, L=3, w=2, out="tensor", n_out=1, n_args=0, motif_str=True, alphabet_perm=[1, 0, 3, 2]))
+    # the library's native int8 one-hot X with real-valued product arguments (they must reach func unrounded)
+    cf.append(dict(kind="apply_product", A=2, B=2, L=2, arg_sizes=[2, 2], out="tensor", n_out=1, n_args=0, x_dtype="int8"))
+    cf.append(dict(kind="apply_pairwise", A=2, B=1, L=2, arg_sizes=[2, 2], out="tuple", n_out=2, n_args=0, x_dtype="int8"))
     cf.append(dict(kind="apply_product", A=2, B=2, L=2, arg_sizes=[3, 2], out="tensor", n_out=1, n_args=0, func_kwargs=True))
     cf.append(dict(kind="apply_pairwise", A=2, B=2, L=2, arg_sizes=[3, 3], out="tensor", n_out=1, n_args=0, func_kwargs=True))
     if not q:
